@@ -336,7 +336,7 @@ def _make_simlink_class():
                         busy = _busy()
                         w.fault_context = {'dispatcher_busy': busy, 'time': sch.now}
                         n0 = len(self.rx_log)
-                        self.err_cb('injected link error (driver thread)')
+                        self.err_cb((w.net.fault or {}).get('msg', 'injected link error (driver thread)'))
                         if len(self.rx_log) > n0:
                             # the dispatcher took a packet from the link while the error was being processed
                             w.fault_context['dispatcher_busy'] = True
@@ -386,7 +386,7 @@ def _make_simlink_class():
                 # the library hands such an error to a thread of its own: whether the dispatcher is in the middle of a
                 # dispatch while it is processed is looked at when that processing closes the link (see close())
                 w.fault_context = {'dispatcher_busy': False, 'time': s.now, 'sender': True, 'rx0': len(self.rx_log)}
-                self.err_cb('injected link error (sending thread)')
+                self.err_cb((w.net.fault or {}).get('msg', 'injected link error (sending thread)'))
                 return
             i = w.req_index
             w.req_index += 1
